@@ -1911,6 +1911,26 @@ def remove_redundant_reshape_pairs_ir(graph: ir.Graph) -> None:
             allowed_fwd = list(reversed(allowed_nodes))
             chain_nodes: Set[ir.Node] = set(allowed_fwd)
 
+            # A size-1 side operand of higher rank than the source would, once
+            # the reshapes are gone, broadcast the source up to its own rank.
+            src_dims = _shape_dims_seq(src.shape)
+            side_rank_ok = src_dims is not None
+            if side_rank_ok:
+                for node in allowed_fwd:
+                    if node.op_type == "CastLike":
+                        continue
+                    for side in _node_inputs(node)[1:]:
+                        side_dims = (
+                            _shape_dims_seq(side.shape) if side is not None else None
+                        )
+                        if side is not None and (
+                            side_dims is None or len(side_dims) > len(src_dims)
+                        ):
+                            side_rank_ok = False
+            if not side_rank_ok:
+                i += 1
+                continue
+
             # Safety gate: only fold reshape pairs when the chain is isolated.
             # If any intermediate elementwise output also feeds non-chain
             # consumers (notably Shape/Slice/Concat shape-reconstruction paths),
